@@ -243,9 +243,10 @@ TBroadcast ==
         \* only a fully negotiated candidate is broadcast; it spends the funding output in force and
         \* creates the new one with exactly the negotiated value
         \/ R.tx = fund[e].tx
-        \/ /\ G1(IsCand(e, R.tx) /\ OneFunding)
+        \/ /\ G1(MayPublish(e, R.tx) /\ OneFunding)
            /\ G1(<<fund[e].tx, fund[e].vout>> \in TxContent.ins)
            /\ G1(\A k \in cands[e] : k.tx = R.tx => k.value = TxContent.fvalue)
+           /\ G1((~IsCand(e, R.tx)) => TxContent.fvalue = NewValue(e))
   \* a commitment transaction is never broadcast on an honest run
   /\ G1(R.type \notin {"UnilateralClose", "CommitmentTransaction", "Commitment"})
 
@@ -270,7 +271,7 @@ TEvent ==
           /\ Unch(<<par, fund, cnt, hs, base, link, redo, lastCS, order, pts, mon, ownExp, qs, cands, lk, cv>>)
      ELSE /\ UNCHANGED svars
           /\ (R.kind = "ChannelClosed" /\ Known(R.chan)) => G1(Closed(EP(R.chan, R.node)))
-          /\ (R.kind = "SpliceNegotiated" /\ Known(R.chan)) => G1(IsCand(EP(R.chan, R.node), R.tx))
+          /\ (R.kind = "SpliceNegotiated" /\ Known(R.chan)) => G1(MayPublish(EP(R.chan, R.node), R.tx))
           /\ (R.kind = "ChannelReady" /\ Known(R.chan)) => G1(fund[EP(R.chan, R.node)].tx = R.tx /\ fund[EP(R.chan, R.node)].vout = R.vout)
 
 \* ---- list_channels after every step: the channel's funding outpoint and value are the ones in force
